@@ -153,3 +153,103 @@ class K17b(Harness):
         return [("same_rules", set(e1.keys()) == set(e2.keys())), ("emit_is_idempotent", And([Eq(e1[k], e2[k]) for k in e1 if k in e2]))]
 
     signature = staticmethod(_sig)
+
+
+import io
+import sys as _sys
+
+import vsg.__main__  # noqa: F401,E402
+
+MAINMOD = _sys.modules["vsg.__main__"]
+TRICKY = ["a", " ", '"', "\\", "\n", "\t", "\x85", " ", "\xe9", ":", "#", "'", "{", "%"]
+
+
+class _Exit(Exception):
+    pass
+
+
+@register
+class K17c(Harness):
+    name = "K17c"
+    prop = "C17"
+    parallel_params = True
+    title = "text level: the file written by --output_configuration (real json.dump), read back by the real configuration reader (yaml), yields the same effective string values and is emitted identically"
+    functions = ("vsg.__main__", "vsg.config", "vsg.rule_list", "vsg.rule")
+    stubs = ("open() in vsg.__main__ and vsg.config captured in memory; sys.exit intercepted; one rule (entity_004) carries the string",)
+    bounds = "user_error_message = every string of 1-2 characters over a 14-symbol alphabet of characters that serialisers treat specially (quotes, backslash, newline, tab, U+0085, U+2028, Latin-1 letter, ':', '#', brace, percent, blank) - engine-forked, run concretely through json and yaml"
+    outside = "longer strings; other attributes"
+    exception_props = ("C17", "C19")
+
+    def params(self, tier):
+        return [{"n": 1}] + [{"n": 2, "first": k} for k in range(len(TRICKY))]
+
+    def run(self, eng, p):
+        from .lfam import CLA
+
+        msg = (TRICKY[p["first"]] if "first" in p else "") + "".join(TRICKY[eng.choose("c%d" % i, len(TRICKY))] for i in range(1 if "first" in p else p["n"]))
+        files = {}
+
+        class Sink(io.StringIO):
+            def __init__(self, name):
+                super().__init__()
+                self.name_ = name
+
+            def close(self):
+                files[self.name_] = self.getvalue()
+                super().close()
+
+            def __exit__(self, *a):
+                self.close()
+                return False
+
+        def emit(conf, name):
+            cla = CLA()
+            cla.output_configuration = name
+            cla.filename = []
+            saved = (MAINMOD.__dict__.get("open"), MAINMOD.sys)
+
+            class S:
+                @staticmethod
+                def exit(code=0):
+                    raise _Exit()
+
+            MAINMOD.open = lambda n, mode="r", *a, **k: Sink(n)
+            MAINMOD.sys = S
+            try:
+                try:
+                    MAINMOD.generate_output_configuration(cla, conf)
+                except _Exit:
+                    pass
+            finally:
+                if saved[0] is None:
+                    MAINMOD.__dict__.pop("open", None)
+                else:
+                    MAINMOD.open = saved[0]
+                MAINMOD.sys = saved[1]
+            return files[name]
+
+        def read(name):
+            real_open = config.__dict__.get("open")
+            config.open = lambda n, *a, **k: io.StringIO(files[n]) if n in files else open(n, *a, **k)
+            try:
+                cla = CLA(configuration=[name])
+                return config.New(cla)
+            finally:
+                if real_open is None:
+                    config.__dict__.pop("open", None)
+                else:
+                    config.open = real_open
+
+        base = config.New(CLA())
+        base.dConfig = dict(base.dConfig)
+        base.dConfig["rule"] = {"entity_004": {"user_error_message": msg}}
+        t1 = emit(base, "one.json")
+        c2 = read("one.json")
+        t2 = emit(c2, "two.json")
+        got = c2.dConfig["rule"]["entity_004"]["user_error_message"]
+        return [("string_survives_round_trip", got == msg), ("emitted_file_identical", t1 == t2)]
+
+    def describe(self, values, p):
+        return {"user_error_message": (TRICKY[p["first"]] if "first" in p else "") + "".join(TRICKY[values.get("c%d" % i, 0)] for i in range(1 if "first" in p else p["n"]))}
+
+    signature = staticmethod(_sig)
